@@ -43,6 +43,8 @@ type c08Case struct {
 	PeerAS    uint32   `json:"peer_as"`   // what the peer really is
 	AcceptAny bool     `json:"accept_any"` // configure peer-as 0
 	Hold      int      `json:"hold"`       // configured hold (0 = default 90)
+	KAMode    int      `json:"ka_mode"`    // configured keepalive interval: 0 a third of the hold time (default), 1 one second, 2 half of it, 3 two thirds
+	NbrLocalAS uint32  `json:"nbr_local_as"` // per-neighbour local-as (0 = none): the AS this speaker presents to the peer
 	Fams      []c08Fam `json:"fams"`
 	// remote OPEN
 	RHold     int        `json:"rhold"`
@@ -71,6 +73,31 @@ func c08ApiFamily(f bgp.Family) *api.Family {
 	return &api.Family{Afi: api.Family_Afi(f.Afi()), Safi: api.Family_Safi(f.Safi())}
 }
 
+// effLocalAS is the AS the server presents to this neighbour.
+func (c *c08Case) effLocalAS() uint32 {
+	if c.NbrLocalAS != 0 {
+		return c.NbrLocalAS
+	}
+	return c.LocalAS
+}
+
+// confKeepalive is the configured keepalive interval (seconds) and the value handed to the API (0 = unset).
+func (c *c08Case) confKeepalive() (int, uint64) {
+	local := c.Hold
+	if local == 0 {
+		local = 90
+	}
+	switch c.KAMode {
+	case 1:
+		return 1, 1
+	case 2:
+		return local / 2, uint64(local / 2)
+	case 3:
+		return local * 2 / 3, uint64(local * 2 / 3)
+	}
+	return local / 3, uint64(c.Hold / 3)
+}
+
 func drawC08(t *rapid.T) c08Case {
 	c := c08Case{
 		LocalAS:   rapid.SampledFrom([]uint32{65000, 65000, 4200000000}).Draw(t, "local_as"),
@@ -82,9 +109,15 @@ func drawC08(t *rapid.T) c08Case {
 		RUnknown:  rapid.IntRange(0, 2).Draw(t, "runknown"),
 		SplitCaps: rapid.Bool().Draw(t, "split"),
 	}
-	switch rapid.IntRange(0, 3).Draw(t, "peer_kind") {
+	c.KAMode = rapid.SampledFrom([]int{0, 0, 0, 1, 2, 3}).Draw(t, "ka_mode")
+	if rapid.IntRange(0, 3).Draw(t, "nbr_local_as") == 0 {
+		c.NbrLocalAS = rapid.SampledFrom([]uint32{65100, 64999, 4200000100}).Draw(t, "nbr_local_as_v")
+	}
+	switch rapid.IntRange(0, 4).Draw(t, "peer_kind") {
 	case 0:
-		c.PeerAS = c.LocalAS // iBGP
+		c.PeerAS = c.effLocalAS() // iBGP
+	case 4:
+		c.PeerAS = c.LocalAS // the global AS: internal only if no other local-as is presented to this neighbour
 	case 1:
 		c.PeerAS = 4200000001
 	default:
@@ -164,7 +197,7 @@ func c08Reference(c *c08Case) c08Ref {
 	if c.RHold < r.hold {
 		r.hold = c.RHold
 	}
-	r.keepalive = local / 3
+	r.keepalive, _ = c.confKeepalive() // the configured one applies when the local hold time is the negotiated one
 	if r.hold < local {
 		r.keepalive = r.hold / 3
 	}
@@ -200,7 +233,7 @@ func c08Reference(c *c08Case) c08Ref {
 	}
 	r.as4 = c.RAS4
 	r.ext = c.RExt
-	r.ibgp = c.PeerAS == c.LocalAS
+	r.ibgp = c.PeerAS == c.effLocalAS()
 	return r
 }
 
@@ -275,8 +308,10 @@ func runC08(t *testing.T) func(c c08Case, st *verifkit.Stats) *verifkit.Failure 
 			peer := &api.Peer{
 				Conf:      &api.PeerConf{NeighborAddress: p.Addr, PeerAsn: c.PeerAS},
 				Transport: &api.Transport{PassiveMode: true},
-				Timers:    &api.Timers{Config: &api.TimersConfig{HoldTime: uint64(c.Hold), KeepaliveInterval: uint64(c.Hold / 3)}},
+				Timers:    &api.Timers{Config: &api.TimersConfig{HoldTime: uint64(c.Hold)}},
 			}
+			_, peer.Timers.Config.KeepaliveInterval = c.confKeepalive()
+			peer.Conf.LocalAsn = c.NbrLocalAS
 			if c.AcceptAny {
 				peer.Conf.PeerAsn = 0
 			}
@@ -333,12 +368,12 @@ func runC08(t *testing.T) func(c c08Case, st *verifkit.Stats) *verifkit.Failure 
 				return verifkit.Failf("open-unparsable", "server OPEN does not parse: %v\n%x", err, rx[0].Raw)
 			}
 			open := om.Body.(*bgp.BGPOpen)
-			wantMy := uint16(c.LocalAS)
-			if c.LocalAS > 65535 {
+			wantMy := uint16(c.effLocalAS())
+			if c.effLocalAS() > 65535 {
 				wantMy = bgp.AS_TRANS
 			}
 			if open.MyAS != wantMy {
-				return verifkit.Failf("open-myas", "OPEN My-AS is %d, want %d for local AS %d", open.MyAS, wantMy, c.LocalAS)
+				return verifkit.Failf("open-myas", "OPEN My-AS is %d, want %d for local AS %d", open.MyAS, wantMy, c.effLocalAS())
 			}
 			localHold := c.Hold
 			if localHold == 0 {
@@ -392,8 +427,8 @@ func runC08(t *testing.T) func(c c08Case, st *verifkit.Stats) *verifkit.Failure 
 			if len(gotMP) != len(c.Fams) {
 				return verifkit.Failf("open-mp-extra", "OPEN announces %d families, %d configured", len(gotMP), len(c.Fams))
 			}
-			if as4seen != c.LocalAS {
-				return verifkit.Failf("open-as4", "4-octet AS capability carries %d, local AS is %d", as4seen, c.LocalAS)
+			if as4seen != c.effLocalAS() {
+				return verifkit.Failf("open-as4", "4-octet AS capability carries %d, local AS is %d", as4seen, c.effLocalAS())
 			}
 			if !extseen {
 				return verifkit.Failf("open-ext", "Extended Message capability not announced")
@@ -440,7 +475,7 @@ func runC08(t *testing.T) func(c c08Case, st *verifkit.Stats) *verifkit.Failure 
 				wantType = api.PeerType_PEER_TYPE_INTERNAL
 			}
 			if pl.State.Type != wantType {
-				return verifkit.Failf("peer-type", "peer type %s, real remote AS %d vs local %d", pl.State.Type, c.PeerAS, c.LocalAS)
+				return verifkit.Failf("peer-type", "peer type %s, real remote AS %d vs local %d (global %d)", pl.State.Type, c.PeerAS, c.effLocalAS(), c.LocalAS)
 			}
 			if pl.State.PeerAsn != c.PeerAS {
 				return verifkit.Failf("peer-as", "reported peer AS %d, real %d", pl.State.PeerAsn, c.PeerAS)
